@@ -276,6 +276,18 @@ def run_harness(h, scratch, tier):
     timeout = float(h["timeout"]) * TIMEOUT_SCALE
     rc, secs = run_limited(kani_cmd(h, tdir), cwd, env, timeout, float(h["mem"]), log)
     text = open(log, errors="replace").read()
+    if "invalid loop identifier" in text and h.get("cbmc"):
+        # --unwindset labels are mangled names that embed the crate disambiguator, which depends on
+        # the path of the checkout; take the actual one from the goto-binary name and retry once
+        m = re.search(r"Reading GOTO program from file \S*?(Cs[0-9A-Za-z]+_4agdb)", text)
+        if m:
+            h2 = dict(h)
+            h2["cbmc"] = re.sub(r"Cs[0-9A-Za-z]+_4agdb", m.group(1), h["cbmc"])
+            if h2["cbmc"] != h["cbmc"]:
+                h["cbmc"] = h2["cbmc"]
+                rc, secs2 = run_limited(kani_cmd(h, tdir), cwd, env, timeout, float(h["mem"]), log)
+                secs += secs2
+                text = open(log, errors="replace").read()
     parsed = parse_kani_output(text)
     out = {"harness": name, "wall_s": round(secs, 1), "parsed": parsed, "log": log, "rc": rc, "tdir": tdir}
     if rc is None:
